@@ -254,5 +254,5 @@ Qed.
 
 (* each exclusion of [query_ok] is needed: the excluded query returns a row with a `<-` key in the model *)
 Example C12_exclusions_needed :
-  leaks q_star_over_scope /\ leaks q_nav_path /\ leaks q_alias.
-Proof. exact (conj star_over_scope_leaks (conj nav_path_leaks alias_leaks)). Qed.
+  leaks q_star_over_scope /\ leaks q_nav_path /\ leaks q_nav_col /\ leaks q_alias.
+Proof. exact (conj star_over_scope_leaks (conj nav_path_leaks (conj nav_col_leaks alias_leaks))). Qed.
